@@ -37,7 +37,7 @@ func (c15) Run(t *tape.Tape, st *Stats) *Violation {
 	helper := t.Intn(3)
 	kind := t.Intn(nKinds)
 	rect := drawRect(t, 12)
-	in := makeImg(t, kind, rect, t.Bool())
+	in := makeImgNeg(t, kind, rect, t.Bool(), true)
 	rect = in.Rect
 	opaque := t.Chance(1, 8)
 	par := parallelismOf(t, rect.Dy())
@@ -71,6 +71,18 @@ func (c15) Run(t *tape.Tape, st *Stats) *Violation {
 	}
 	var want image.Image
 	var name string
+	if rect.Min.X < 0 || rect.Min.Y < 0 {
+		// below zero the reference itself may fail for a subsampled source (see
+		// makeImgNeg): such a run decides nothing
+		refPanicked := false
+		func() {
+			defer func() { refPanicked = recover() != nil }()
+			draw.Draw(image.NewRGBA64(b), b, ref, b.Min, draw.Src)
+		}()
+		if refPanicked {
+			return nil
+		}
+	}
 	switch helper {
 	case 0:
 		name = "ConvertImageToNRGBA"
